@@ -44,6 +44,25 @@ impl C02 {
                     }
                     return "not-closed";
                 }
+                // "never turned into a model with missing links": a partition whose source block names its neighbour keeps it
+                let bdl_text: String = if is_xml { bdl_span(text).map(|(a, b)| text[a..b].to_string()).unwrap_or_default() } else { text.to_string() };
+                for b in read_blocks(&bdl_text).iter().filter(|b| b.btype == "INTERIOR-WALL") {
+                    let named = b.text("NEXT-TO");
+                    let adiabatic = b.raw("INT-WALL-TYPE").map_or(false, |t| t.trim() == "ADIABATIC");
+                    if let (Some(neighbour), false) = (named, adiabatic) {
+                        if let Some(w) = m.walls.iter().find(|w| w.name == b.name) {
+                            obs.count("partitions_with_named_neighbour_checked");
+                            if w.bounds == bemodel::BoundaryType::INTERIOR && w.next_to.is_none() {
+                                obs.violation(
+                                    "source-reference-dropped:WallNext",
+                                    format!("{} ({}): partition {:?} names the adjacent space {:?} in the project, the model holds no adjacent space for it", origin, what, b.name, neighbour),
+                                    json!({"origin": origin, "edit": what, "wall": b.name, "next_to_in_source": neighbour}),
+                                );
+                                return "not-closed";
+                            }
+                        }
+                    }
+                }
                 // cross-check with the library's own checker
                 match guard(|| bemodel::check(&m)) {
                     Ok(w) => {
@@ -144,16 +163,16 @@ impl Property for C02 {
         "C02"
     }
     fn rule(&self) -> String {
-        "(a) every shipped project (12 .ctehexml, 56 .cte) converted as parse_with_catalog + try_from does; (b) generated projects in random layouts, a third with definitions and their references re-spelled with doubled blanks, blanks at the ends, brackets or very long names, half with generated system sections; (c) each of them with one definition that something may refer to renamed, removed, or its references re-targeted to an existing definition of another kind (week schedule for day schedule, glass for frame, ...) in the text (CONSTRUCTION, LAYERS, MATERIAL, GLASS-TYPE, NAME-FRAME, GAP, POLYGON, FLOOR, SPACE, SPACE-/SYSTEM-CONDITIONS, yearly/weekly/daily schedule, wall blocks with children, an UNDERGROUND-FLOOR slipped between a wall and its windows); every Ok(model) must pass the harness's own closure walk (14 link kinds, unique non-nil ids) and bemodel::check; a panic is neither a model nor an error; non-trivial = distinct (project, edit)".into()
+        "(a) every shipped project (12 .ctehexml, 56 .cte) converted as parse_with_catalog + try_from does; (b) generated projects in random layouts, a third with definitions and their references re-spelled with doubled blanks, blanks at the ends, brackets or very long names, half with generated system sections; (c) each of them with one definition that something may refer to renamed, removed, or its references re-targeted to an existing definition of another kind (week schedule for day schedule, glass for frame, ...) in the text (CONSTRUCTION, LAYERS, MATERIAL, GLASS-TYPE, NAME-FRAME, GAP, POLYGON, FLOOR, SPACE, SPACE-/SYSTEM-CONDITIONS, yearly/weekly/daily schedule, wall blocks with children, an UNDERGROUND-FLOOR slipped between a wall and its windows); every Ok(model) must pass the harness's own closure walk (14 link kinds, unique non-nil ids) and bemodel::check, and every partition whose source block names an adjacent space must hold one; a panic is neither a model nor an error; non-trivial = distinct (project, edit)".into()
     }
     fn assumptions(&self) -> Vec<String> {
-        vec!["an Ok result with a closed model is legal after an edit (the catalogue may supply the name, an optional link may become None, BDL re-parents children positionally)".into()]
+        vec!["an Ok result with a closed model is legal after an edit: the catalogue may supply the name, BDL re-parents children positionally, and a space whose SPACE-/SYSTEM-CONDITIONS name no block gets no loads / thermostat (legacy LIDER files have no such blocks at all); a partition that names its neighbour in the project must keep one".into()]
     }
     fn workloads(&self, tier: Tier) -> Vec<(String, u64)> {
         vec![("real".into(), real_project_files().len() as u64), ("generated".into(), tier.pick(450, 3000)), ("real-edited".into(), tier.pick(1000, 12_000)), ("generated-edited".into(), tier.pick(1000, 12_000))]
     }
     fn required(&self, _tier: Tier) -> Vec<(String, u64)> {
-        vec![("class:closed".into(), 300), ("class:rejected".into(), 100), ("edits:remove".into(), 150), ("edits:rename".into(), 100), ("edits:insert".into(), 10), ("edits:retarget".into(), 60), ("generated:closed".into(), 60), ("generated-odd-names:closed".into(), 5), ("generated-odd-names:rejected".into(), 5)]
+        vec![("class:closed".into(), 300), ("class:rejected".into(), 100), ("edits:remove".into(), 150), ("edits:rename".into(), 100), ("edits:insert".into(), 10), ("edits:retarget".into(), 60), ("generated:closed".into(), 60), ("partitions_with_named_neighbour_checked".into(), 500), ("generated-odd-names:closed".into(), 5), ("generated-odd-names:rejected".into(), 5)]
     }
     fn time_cap_s(&self, tier: Tier) -> u64 {
         tier.pick(170, 2400)
